@@ -315,10 +315,31 @@ func c01Refusal(c *Ctx) {
 		c.Undecided("R01b", "signinit.Init", "-", "function not found")
 	} else {
 		nRef := 0
+		// in Init, or in a helper of its package whose failure Init hands on
+		hosts := []*ssa.Function{in}
 		for _, b := range in.Blocks {
 			for _, x := range b.Instrs {
-				if mi, ok := x.(*ssa.MakeInterface); ok && strings.HasSuffix(mi.X.Type().String(), "sigerrors.ErrNoCertificate") {
-					nRef++
+				ci, ok := x.(ssa.CallInstruction)
+				if !ok {
+					continue
+				}
+				g := ci.Common().StaticCallee()
+				if g == nil || pkgOf(g) != pkgOf(in) || len(g.Blocks) == 0 || errResultIndex(g.Signature) < 0 {
+					continue
+				}
+				if ev := errValueOf(ci); ev != nil {
+					if r, _ := p.failureReachesSuccess(in, ev); r == nil {
+						hosts = append(hosts, g)
+					}
+				}
+			}
+		}
+		for _, h := range hosts {
+			for _, b := range h.Blocks {
+				for _, x := range b.Instrs {
+					if mi, ok := x.(*ssa.MakeInterface); ok && strings.HasSuffix(mi.X.Type().String(), "sigerrors.ErrNoCertificate") {
+						nRef++
+					}
 				}
 			}
 		}
